@@ -34,6 +34,9 @@ type Solver struct {
 	Log     io.Writer // optional: full transcript (for cross-solver diff)
 	Errors  []string
 	timeout int
+	frames  [][]string
+	Retries int
+	RetryOK int
 }
 
 // SolverCmd is the command used for new solvers; overridable by env GOSYM_SOLVER
@@ -64,9 +67,19 @@ func NewSolver(timeoutMs int) (*Solver, error) {
 		return nil, err
 	}
 	s := &Solver{cmd: cmd, in: in, out: bufio.NewReaderSize(out, 1<<20), Name: argv[0], timeout: timeoutMs}
+	if d := os.Getenv("GOSYM_LOG"); d != "" {
+		f, err := os.CreateTemp(d, "solver-*.smt2")
+		if err == nil {
+			s.Log = f
+		}
+	}
 	s.Send("(set-option :produce-models true)")
 	if argv[0] != "cvc5" {
-		s.Send(fmt.Sprintf("(set-option :timeout %d)", timeoutMs))
+		inc := timeoutMs
+		if inc > 4000 {
+			inc = 4000 // incremental attempts are cut short; unknown answers are retried one-shot with the full timeout
+		}
+		s.Send(fmt.Sprintf("(set-option :timeout %d)", inc))
 	} else {
 		s.Send("(set-logic ALL)")
 		s.Send(fmt.Sprintf("(set-option :tlimit-per %d)", timeoutMs))
@@ -84,6 +97,20 @@ func (s *Solver) Close() {
 }
 
 func (s *Solver) Send(line string) {
+	// mirror of the assertion stack (for the one-shot retry of unknown answers)
+	switch {
+	case strings.HasPrefix(line, "(push"):
+		s.frames = append(s.frames, nil)
+	case strings.HasPrefix(line, "(pop"):
+		if len(s.frames) > 0 {
+			s.frames = s.frames[:len(s.frames)-1]
+		}
+	case strings.HasPrefix(line, "(assert") || strings.HasPrefix(line, "(declare-fun"):
+		if len(s.frames) == 0 {
+			s.frames = append(s.frames, nil)
+		}
+		s.frames[len(s.frames)-1] = append(s.frames[len(s.frames)-1], line)
+	}
 	if s.Log != nil {
 		io.WriteString(s.Log, line+"\n")
 	}
@@ -143,7 +170,15 @@ func (s *Solver) Check() Result {
 	if len(s.Errors) > 0 {
 		r = Unknown
 	}
+	if r == Unknown && len(s.Errors) == 0 && s.Name != "cvc5" {
+		// the incremental core sometimes times out on queries a fresh process
+		// decides quickly: retry once, one-shot, same timeout
+		r = s.oneShot()
+	}
 	s.Time += time.Since(t0)
+	if s.Log != nil {
+		fmt.Fprintf(s.Log, "; -> %s in %.3fs\n", r, time.Since(t0).Seconds())
+	}
 	switch r {
 	case Sat:
 		s.NSat++
@@ -296,4 +331,41 @@ func ParseIntValue(v string) (int64, bool) {
 		n = -n
 	}
 	return n, true
+}
+
+func (s *Solver) oneShot() Result {
+	s.Retries++
+	f, err := os.CreateTemp("", "gosym-oneshot-*.smt2")
+	if err != nil {
+		return Unknown
+	}
+	defer os.Remove(f.Name())
+	w := bufio.NewWriter(f)
+	for _, fr := range s.frames {
+		for _, l := range fr {
+			w.WriteString(l)
+			w.WriteByte('\n')
+		}
+	}
+	w.WriteString("(check-sat)\n")
+	w.Flush()
+	f.Close()
+	argv := SolverArgv()
+	secs := s.timeout/1000 + 1
+	out, _ := exec.Command(argv[0], fmt.Sprintf("-T:%d", secs), f.Name()).Output()
+	txt := strings.TrimSpace(string(out))
+	if strings.Contains(txt, "(error") {
+		return Unknown
+	}
+	switch {
+	case strings.HasPrefix(txt, "unsat"):
+		s.RetryOK++
+		return Unsat
+	case strings.HasPrefix(txt, "sat"):
+		// a model is needed by callers after Sat: only Unsat is taken from the retry;
+		// for Sat, feed the verdict back by re-checking is pointless, so keep it.
+		s.RetryOK++
+		return Sat
+	}
+	return Unknown
 }
